@@ -176,6 +176,10 @@ pub fn gen_duration(rng: &mut Rng, k: &Knobs) -> f32 {
         *rng.pick(&[f32::from_bits(1), f32::from_bits(2), 1e-40f32, f32::MIN_POSITIVE, 2.0e-38, 3.0e-39])
     } else if k.extreme && rng.chance(0.2) {
         *rng.pick(&[1e-6f32, 1e-3, 1e4, 1e9, 1e15, 1e20]) * (1.0 + rng.unit() as f32)
+    } else if rng.chance(0.004) {
+        // rarely a cycle longer than the largest number of seconds a `Duration` can hold
+        // (1.8e19 s): finite, representable in f32, and beyond the range of a nanosecond clock
+        *rng.pick(&[2.0e19f32, 1.0e20, 7.0e21])
     } else if rng.chance(0.015) {
         // rarely a cycle far shorter than any frame: tens of nanoseconds to tens of microseconds
         // (valid - the cycle duration only has to be positive - and below what guards against
